@@ -25,7 +25,7 @@ pub fn property() -> Property {
             "the forwarder's accept count equals the number of TLS sessions dialled; a connection counts as open until either side closed it",
             "no timers involved: histories are shorter than the 30 s check interval",
         ],
-        families: vec![(Box::new(ReuseFam), 60, 400)],
+        families: vec![(Box::new(ReuseFam), 60, 1_500)],
     }
 }
 
